@@ -12,6 +12,7 @@ from .. import cli, core
 from ..core import Violation
 from ..harness import Harness, kvline
 from ..ref import script as R, secp, tx as T, verify as V
+from ..ref import tx as reftx
 from ..ref.script import F
 from ..gen import sigcases as SC, scripts as G
 from . import c02
@@ -80,16 +81,27 @@ def mock_case(draw, mode='mixed'):
                 k_ = bytes([7]) * 32
         return draw(st.one_of(mock_sigs, st.just(b''))), k_
 
-    template = draw(st.sampled_from(['checksig', 'checksig', 'multisig', 'checksigadd'] if sv != R.TAPSCRIPT else ['checksig', 'checksigadd', 'checksigadd']))
+    template = draw(st.sampled_from(['checksig', 'checksig', 'multisig', 'multisig', 'checksigadd'] if sv != R.TAPSCRIPT else ['checksig', 'checksigadd', 'checksigadd']))
     if sv != R.TAPSCRIPT and template == 'checksigadd':
         template = 'checksig'
+    can_sign = with_tx and sv != R.TAPSCRIPT and mode == 'mixed'
     if template == 'multisig':
         n = draw(st.integers(1, 4))
         keys = []
         sigs = []
         for i in range(n):
             k = draw(st.integers(0, 2)) if mode == 'mixed' else 1
-            if k == 0:
+            if k != 0 and can_sign and draw(st.integers(0, 1)):
+                # an unlisted key with a REAL signature over this transaction (valid, or made by another key): listed and really checked
+                # pairs inside one CHECKMULTISIG, in every order
+                d_ = 1000 + draw(st.integers(1, 40))
+                keys.append(secp.ser_pub(secp.gen(d_)))
+                if draw(st.integers(0, 3)):
+                    good = draw(st.integers(0, 4)) != 0
+                    sigs.append(('REAL', d_ if good else d_ + 100, draw(st.sampled_from([1, 1, 1, 2, 3, 0x81, 0x83]))))
+                    kinds.append('unlisted')
+                    kinds.append('real-valid' if good else 'real-invalid')
+            elif k == 0:
                 s_, k_ = draw(st.sampled_from(pairs))
                 keys.append(k_)
                 if draw(st.integers(0, 3)):
@@ -126,6 +138,13 @@ def mock_case(draw, mode='mixed'):
                 body += P(k_) + (b'\xac' if i == 0 else b'\xba')
             body += SC.num(draw(st.integers(0, len(items)))) + b'\x9c'
     script = bytes(body)
+    if any(isinstance(x, tuple) for x in stack):
+        # the signatures are not part of the script, so the signed script code is the script itself
+        def real(x):
+            _, d_, ht = x
+            h = reftx.sighash_legacy(tx, idx, script, ht) if sv == R.BASE else reftx.sighash_v0(tx, idx, script, spent[idx]['value'], ht)
+            return secp.der_sig(*secp.ecdsa_sign(d_, h)) + bytes([ht])
+        stack = [real(x) if isinstance(x, tuple) else x for x in stack]
     weight = draw(st.sampled_from([0, 1, 49, 50, 99, 100, 1000000, 1000000])) if sv == R.TAPSCRIPT else None
     return dict(pairs=pairs, script=script, stack=stack, flags=flags, sv=sv, tx=(tx, idx, amount, spent) if with_tx else None, kinds=kinds, template=template, weight=weight)
 
@@ -193,6 +212,8 @@ def check_mixed(c, ctx):
     nl, nu = c['kinds'].count('listed'), c['kinds'].count('unlisted')
     ctx.case(repr(case_json(c)), nl >= 1 and nu >= 1, dict(case_json(c), expected=exp[1] or 'ok'), 'sv%d:%s:%s' % (c['sv'], c['template'], 'tx' if c['tx'] else 'notx'))
     ctx.count('template:' + c['template'])
+    if 'real-valid' in c['kinds'] and nl >= 1:
+        ctx.count('listed-pair-next-to-valid-real-signature')
     g = tree_run(c)
     if g.get('timeout'):
         ctx.inconclusive += 1
